@@ -1,6 +1,7 @@
 package main
 
 import (
+	"unicode"
 	"fmt"
 	"regexp"
 	"strings"
@@ -22,6 +23,7 @@ type evalStep struct {
 	expr      string
 	binds     []binding
 	viaTokens bool // SetOriginalTokens(tokens of expr) instead of SetExpression(expr)
+	mgr       string // "u" / "s": SetVariantOperations(...) is called before this step; "" leaves the calculator as it is
 }
 
 var (
@@ -39,6 +41,9 @@ type tplStep struct {
 }
 
 func evalOn(calc *calculator.ExpressionCalculator, st evalStep) string {
+	if st.mgr != "" {
+		calc.SetVariantOperations(mgrOf(st.mgr))
+	}
 	if st.viaTokens {
 		// the calculator's SetOriginalTokens drops the parser's error: the outcome is judged on the evaluation
 		calc.SetOriginalTokens(exprTokens(st.expr))
@@ -57,8 +62,11 @@ func evalSeqOp(m string, steps []evalStep) string {
 	parts := make([]string, len(steps))
 	for i, st := range steps {
 		pre := ""
+		if st.mgr != "" {
+			pre = "M" + st.mgr
+		}
 		if st.viaTokens {
-			pre = "T"
+			pre += "T"
 		}
 		parts[i] = strings.TrimSpace(pre + strRunes(st.expr) + " ; " + bindsStr(st.binds))
 	}
@@ -113,20 +121,43 @@ func quoteIntegers(expr string) string {
 	return intLexRe.ReplaceAllString(expr, "${1}'${2}'${3}")
 }
 
+// swapCase: the same text with the case of every letter flipped (equal under case folding, different as text)
+func swapCase(s string) string {
+	return strings.Map(func(r rune) rune {
+		if unicode.IsUpper(r) {
+			return unicode.ToLower(r)
+		}
+		if unicode.IsLower(r) {
+			return unicode.ToUpper(r)
+		}
+		return r
+	}, s)
+}
+
 const reuseSpan = 40 // a long-lived instance serves this many cases, then a new one takes over
 
 func reuseEval(c *Ctx, m string, cur evalStep, fresh string) {
+	// one long-lived calculator serves both operations managers: the manager is installed with
+	// SetVariantOperations before each step, also after the calculator has evaluated under the other one
+	cur.mgr = m
+	m = ""
 	calc := sharedCalc[m]
 	if calc == nil {
 		calc = calculator.NewExpressionCalculator()
-		calc.SetVariantOperations(mgrOf(m))
 		sharedCalc[m] = calc
 		sharedHist[m] = nil
 	}
 	if decoy := quoteIntegers(cur.expr); decoy != cur.expr && c.Rng.Intn(3) == 0 {
 		// a different expression whose tokens, once decoded, spell the same characters ('2' + 3 vs 2 + 3),
 		// handed over as tokens just before
-		d := evalStep{expr: decoy, binds: cur.binds, viaTokens: true}
+		d := evalStep{expr: decoy, binds: cur.binds, viaTokens: true, mgr: cur.mgr}
+		safeCallT(3*time.Second, func() string { return evalOn(calc, d) })
+		sharedHist[m] = append(sharedHist[m], d)
+	}
+	if decoy := swapCase(cur.expr); decoy != cur.expr && c.Rng.Intn(4) == 0 {
+		// the neighbour in the history differs in letter case only (keywords and names are case-insensitive, string
+		// constants and reported spellings are not)
+		d := evalStep{expr: decoy, binds: cur.binds, mgr: cur.mgr}
 		safeCallT(3*time.Second, func() string { return evalOn(calc, d) })
 		sharedHist[m] = append(sharedHist[m], d)
 	}
@@ -203,6 +234,11 @@ func reuseParse(c *Ctx, expr string, o parseOut) {
 	if c.Rng.Intn(3) == 0 {
 		steps = append(steps, expr) // the same text again: an "already compiled" short-cut must not change the answer
 	}
+	if decoy := swapCase(expr); decoy != expr && c.Rng.Intn(4) == 0 {
+		// a neighbour that differs in letter case only
+		safeCallT(3*time.Second, func() string { return parseOn(p, decoy) })
+		parserHist = append(parserHist, decoy)
+	}
 	for _, e := range steps {
 		got := safeCallT(3*time.Second, func() string { return parseOn(p, e) })
 		c.count("reused-parser")
@@ -271,6 +307,11 @@ func reuseTpl(c *Ctx, cur tplStep, fresh string) {
 		safeCallT(3*time.Second, func() string { return tplOn(t, cur) })
 		tplHist = append(tplHist, cur)
 	}
+	if decoy := swapCase(cur.src); decoy != cur.src && c.Rng.Intn(4) == 0 {
+		d := tplStep{decoy, cur.vars} // differs in letter case only: names are case-insensitive, text is not
+		safeCallT(3*time.Second, func() string { return tplOn(t, d) })
+		tplHist = append(tplHist, d)
+	}
 	got := safeCallT(3*time.Second, func() string { return tplOn(t, cur) })
 	c.count("reused-template")
 	tplHist = append(tplHist, cur)
@@ -312,6 +353,10 @@ func parseEvalStep(f []string) evalStep {
 	st := evalStep{}
 	if len(f) == 0 {
 		return st
+	}
+	if strings.HasPrefix(f[0], "M") && len(f[0]) >= 2 {
+		st.mgr = f[0][1:2]
+		f[0] = f[0][2:]
 	}
 	if strings.HasPrefix(f[0], "T") {
 		st.viaTokens = true
@@ -361,7 +406,11 @@ func replaySeq(c *Ctx, op string) bool {
 			steps = append(steps, parseEvalStep(p))
 		}
 		last := steps[len(steps)-1]
-		fresh, _, _ := evalWith(last.expr, f[1], last.binds)
+		lm := f[1]
+		if last.mgr != "" {
+			lm = last.mgr
+		}
+		fresh, _, _ := evalWith(last.expr, lm, last.binds)
 		got := evalSeq(f[1], steps)
 		c.record(op, true)
 		if got != fresh {
